@@ -201,7 +201,18 @@ func runC13(p *core.Program, r *core.Report) {
 				continue
 			}
 			sc, ok := classifyScan(x, fn, rd.idx, sl)
-			c.ob("PT5", s.name, "complete forward scan", p.InstrPos(rd.load), ok && sc.dir == +1, "every element must be examined, in index order (ties: the first extremal element wins)")
+			okScan := ok && sc.dir == +1
+			if !okScan && len(seedReads) > 0 {
+				// the seed already is s[0]: the scan may start at 1
+				if ph, isPhi := rd.idx.(*ssa.Phi); isPhi && phiStep(ph) == +1 {
+					if k, isK := path.IntConst(phiInit(ph)); isK && k == 1 {
+						okScan = guardedByHeader(ph, func(cd path.Cond) bool {
+							return cd.Op == token.LSS && cd.X == ssa.Value(ph) && isLenOfValue(x, cd.Y, sl)
+						})
+					}
+				}
+			}
+			c.ob("PT5", s.name, "complete forward scan", p.InstrPos(rd.load), okScan, "every element must be examined, in index order (ties: the first extremal element wins)")
 		}
 		c.ob("PT5", s.name, "scan present", c.fpos(fn), len(scanReads) >= 1, "no scan of the input found")
 		// the update test: strict comparison between (image of) the current element and (image of) the accumulator
@@ -221,12 +232,15 @@ func runC13(p *core.Program, r *core.Report) {
 			if call, ok := v.(*ssa.Call); ok && s.by && call.Call.Value == ssa.Value(funcParam(fn)) && len(call.Call.Args) == 1 {
 				v = call.Call.Args[0]
 			}
-			ph, ok := v.(*ssa.Phi)
-			if !ok {
-				return false
+			_, ok := v.(*ssa.Phi)
+			return ok
+		}
+		accOf := func(v ssa.Value) *ssa.Phi {
+			if call, ok := v.(*ssa.Call); ok && s.by && len(call.Call.Args) == 1 {
+				v = call.Call.Args[0]
 			}
-			accPhi = ph
-			return true
+			ph, _ := v.(*ssa.Phi)
+			return ph
 		}
 		nUpd := 0
 		for _, b := range fn.Blocks {
@@ -247,11 +261,19 @@ func runC13(p *core.Program, r *core.Report) {
 				continue
 			}
 			nUpd++
+			accPhi = accOf(bb)
 			want := ">"
 			if s.min {
 				want = "<"
 			}
-			c.ob("OD2", s.name, "strict update comparison", p.InstrPos(iff), rel == want,
+			// where the extremum is selected by the elements themselves ties are equal values,
+			// so < and <= give the same answer; under a key function the first extremal
+			// element must win, which needs the strict comparison
+			okRel := rel == want
+			if !s.by && rel == want+"=" {
+				okRel = true
+			}
+			c.ob("OD2", s.name, "strict update comparison", p.InstrPos(iff), okRel,
 				fmt.Sprintf("the accumulator is replaced when element %s accumulator; %s must use the strict %s so that the first extremal element is kept and the right extremum is found", rel, s.name, want))
 			// the true edge installs the element just read
 			tb := b.Succs[0]
@@ -282,6 +304,41 @@ func runC13(p *core.Program, r *core.Report) {
 			c.ob("PV1", s.name, "update installs the element just read", p.InstrPos(iff), okSet, "on the update edge the accumulator must become the element of the current index")
 		}
 		c.ob("OD2", s.name, "update test present", c.fpos(fn), nUpd == 1, "expected exactly one comparison between the current element and the running extremum")
+		// the running extremum starts as the first element: started from the zero value
+		// (or from any other slot) the answer is wrong for inputs on one side of zero
+		if accPhi != nil && len(path.NaturalLoop(accPhi.Block())) > 0 {
+			loop := path.NaturalLoop(accPhi.Block())
+			okSeed, nEntry := true, 0
+			for i, e := range accPhi.Edges {
+				if loop[accPhi.Block().Preds[i]] {
+					continue
+				}
+				nEntry++
+				// the first element, or the zero value on the side where the input is empty
+				isSeed := false
+				for _, o := range valueOrigins(e) {
+					hit := false
+					for _, rd := range seedReads {
+						if o == ssa.Value(rd.load) {
+							hit = true
+							isSeed = true
+						}
+					}
+					if !hit && !isZeroConst(o) && !zeroResult(o, accPhi.Block()) {
+						okSeed = false
+					}
+				}
+				if !isSeed {
+					okSeed = false
+				}
+			}
+			c.ob("PV1", s.name, "running extremum seeded with the first element", p.Pos(accPhi.Pos()), okSeed && nEntry >= 1, "the accumulator does not enter the scan holding s[0]: starting from the zero value (or another slot) yields a value that is not the extremum, for instance for all-negative input to a maximum")
+		}
+		for _, rd := range reads {
+			if k, isC := path.IntConst(rd.idx); isC && k != 0 {
+				c.ob("PT6", s.name, "constant slot other than the first", p.InstrPos(rd.load), false, fmt.Sprintf("the input is read at the constant index %d: a shorter input panics and the element is not the seed the scan needs", k))
+			}
+		}
 		// result: the accumulator, whose origins are the zero value and elements of the input
 		for _, b := range fn.Blocks {
 			rt, ok := b.Instrs[len(b.Instrs)-1].(*ssa.Return)
@@ -402,7 +459,7 @@ func runC13(p *core.Program, r *core.Report) {
 			if iff == nil {
 				continue
 			}
-			cd, ok := path.CondOf(iff)
+			cd, ok := cmpOf(iff)
 			if !ok || (cd.Op != token.LSS && cd.Op != token.GTR && cd.Op != token.LEQ && cd.Op != token.GEQ) {
 				continue
 			}
@@ -419,7 +476,150 @@ func runC13(p *core.Program, r *core.Report) {
 			if name == "gogu.FindMinByKey" {
 				want = "<"
 			}
-			c.ob("OD2", name, "strict update comparison", p.InstrPos(iff), rel == want, "the running extremum must be replaced on the strict comparison "+want)
+			c.ob("OD2", name, "strict update comparison", p.InstrPos(iff), rel == want || rel == want+"=", "the running extremum must be replaced on the comparison "+want+" (ties are equal values, so "+want+"= is the same)")
+		}
+		// the running extremum: seeded with mapSlice[0][key], replaced by the value that was
+		// compared; every lookup is at the caller's key; the per-map selection (FindByKey)
+		// keeps exactly the entry of that key
+		{
+			keyP := paramByName(fn, "key")
+			isKeyLookup := func(v ssa.Value, firstMap bool) bool {
+				if ex, ok := v.(*ssa.Extract); ok && ex.Index == 0 {
+					v = ex.Tuple
+				}
+				lk, ok := v.(*ssa.Lookup)
+				if !ok || keyP == nil || path.Unspill(lk.Index) != ssa.Value(keyP) {
+					return false
+				}
+				if firstMap {
+					u, ok := lk.X.(*ssa.UnOp)
+					if !ok {
+						return false
+					}
+					ia, ok := u.X.(*ssa.IndexAddr)
+					if !ok || ia.X != sl {
+						return false
+					}
+					k, isK := path.IntConst(ia.Index)
+					return isK && k == 0
+				}
+				return true
+			}
+			for _, in := range path.Instrs(fn) {
+				if lk, ok := in.(*ssa.Lookup); ok {
+					if _, isMap := lk.X.Type().Underlying().(*types.Map); isMap {
+						c.ob("PV1", name, "lookups are at the caller's key", p.InstrPos(lk), keyP != nil && path.Unspill(lk.Index) == ssa.Value(keyP), "a map of the input is read at something other than the key parameter")
+					}
+				}
+			}
+			nAcc := 0
+			for _, b := range fn.Blocks {
+				iff := path.BlockIf(b)
+				if iff == nil {
+					continue
+				}
+				cd, ok := cmpOf(iff)
+				if !ok || (cd.Op != token.LSS && cd.Op != token.GTR && cd.Op != token.LEQ && cd.Op != token.GEQ) {
+					continue
+				}
+				cand, acc := cd.X, cd.Y
+				if _, isPhi := acc.(*ssa.Phi); !isPhi {
+					cand, acc = cd.Y, cd.X
+				}
+				ph, isPhi := acc.(*ssa.Phi)
+				if !isPhi || !isKeyLookup(cand, false) || len(path.NaturalLoop(ph.Block())) == 0 {
+					continue
+				}
+				nAcc++
+				loop := path.NaturalLoop(ph.Block())
+				okSeed, okUpd := true, false
+				nEntry := 0
+				for i, e := range ph.Edges {
+					if !loop[ph.Block().Preds[i]] {
+						nEntry++
+						for _, o := range valueOrigins(e) {
+							if !isKeyLookup(o, true) {
+								okSeed = false
+							}
+						}
+						continue
+					}
+					if e == ssa.Value(ph) {
+						continue // unchanged on this edge
+					}
+					for _, o := range valueOrigins(e) {
+						if o == ssa.Value(ph) {
+							continue
+						}
+						if lk, ok := o.(*ssa.Lookup); ok && isKeyLookup(o, false) {
+							// the same map the comparison looked at
+							cl, _ := cand.(*ssa.Lookup)
+							if ex, isEx := cand.(*ssa.Extract); isEx {
+								cl, _ = ex.Tuple.(*ssa.Lookup)
+							}
+							if cl != nil && cl.X == lk.X {
+								okUpd = true
+								continue
+							}
+						}
+						if ex, ok := o.(*ssa.Extract); ok && o == cand && ex.Index == 0 {
+							okUpd = true
+							continue
+						}
+						okSeed = false
+					}
+				}
+				c.ob("PV1", name, "running extremum seeded with the first map's value", p.InstrPos(iff), okSeed && nEntry >= 1, "the accumulator must enter the scan holding mapSlice[0][key] (and take no other values than compared ones): started from the zero value the answer is wrong for inputs on one side of zero")
+				c.ob("PV1", name, "update installs the value that was compared", p.InstrPos(iff), okUpd, "on the update edge the accumulator must become the value of the current map at key")
+			}
+			c.ob("PV1", name, "running extremum present", c.fpos(fn), nAcc == 1, "expected one comparison between the current map's value at key and the running extremum")
+			// FindByKey's selector keeps the entry of the key
+			if fbk := p.Func("gogu.FindByKey"); fbk != nil {
+				for _, call := range callsTo(fn, fbk) {
+					okSel := false
+					if mc, ok := call.Common().Args[1].(*ssa.MakeClosure); ok {
+						if cl, ok := mc.Fn.(*ssa.Function); ok && len(cl.Params) == 1 {
+							for _, alt := range returnAlternatives(cl, 0) {
+								bo, ok := alt.val.(*ssa.BinOp)
+								if !ok || bo.Op != token.EQL {
+									okSel = false
+									break
+								}
+								isCapKey := func(v ssa.Value) bool {
+									if u, ok := v.(*ssa.UnOp); ok && u.Op == token.MUL {
+										v = u.X
+									}
+									fv, ok := v.(*ssa.FreeVar)
+									if !ok {
+										return false
+									}
+									for i, f := range cl.FreeVars {
+										if f == fv && i < len(mc.Bindings) {
+											b := mc.Bindings[i]
+											if b == ssa.Value(keyP) {
+												return true
+											}
+											if al, ok := b.(*ssa.Alloc); ok {
+												for _, rf := range *al.Referrers() {
+													if st, ok := rf.(*ssa.Store); ok && st.Addr == ssa.Value(al) && st.Val == ssa.Value(keyP) {
+														return true
+													}
+												}
+											}
+										}
+									}
+									return false
+								}
+								okSel = (bo.X == ssa.Value(cl.Params[0]) && isCapKey(bo.Y)) || (bo.Y == ssa.Value(cl.Params[0]) && isCapKey(bo.X))
+								if !okSel {
+									break
+								}
+							}
+						}
+					}
+					c.ob("PV1", name, "per-map selection keeps the entry of the key", p.InstrPos(call), okSel, "the selector handed to FindByKey must be k == key: anything else hides the value the comparison needs (the extremum silently stays at the first map's value)")
+				}
+			}
 		}
 		// every map of the input is examined: range over the slice of maps
 		okRange := false
@@ -592,4 +792,66 @@ func mayRepeatPerIteration(acc *ssa.BinOp, load *ssa.UnOp) bool {
 		}
 	}
 	return false
+}
+
+// cmpOf decomposes the condition of a branch into a relational comparison: written in
+// place, or delegated to a local two-parameter function literal whose body is just the
+// comparison of its parameters (`better := func(v, best T) bool { return v < best }`;
+// `if better(x, acc)`), in which case the arguments take the parameters' places.
+func cmpOf(iff *ssa.If) (path.Cond, bool) {
+	if cd, ok := path.CondOf(iff); ok {
+		return cd, true
+	}
+	v := iff.Cond
+	neg := false
+	for {
+		if u, ok := v.(*ssa.UnOp); ok && u.Op == token.NOT {
+			neg = !neg
+			v = u.X
+			continue
+		}
+		break
+	}
+	call, ok := v.(*ssa.Call)
+	if !ok || len(call.Call.Args) != 2 {
+		return path.Cond{}, false
+	}
+	var cl *ssa.Function
+	switch f := path.Unspill(call.Call.Value).(type) {
+	case *ssa.MakeClosure:
+		cl, _ = f.Fn.(*ssa.Function)
+	case *ssa.Function:
+		if f.Parent() != nil { // a function literal without captured variables
+			cl = f
+		}
+	}
+	if cl == nil || len(cl.Params) != 2 {
+		return path.Cond{}, false
+	}
+	alts := returnAlternatives(cl, 0)
+	if len(alts) != 1 {
+		return path.Cond{}, false
+	}
+	bo, ok := alts[0].val.(*ssa.BinOp)
+	if !ok {
+		return path.Cond{}, false
+	}
+	arg := func(p ssa.Value) ssa.Value {
+		switch p {
+		case ssa.Value(cl.Params[0]):
+			return call.Call.Args[0]
+		case ssa.Value(cl.Params[1]):
+			return call.Call.Args[1]
+		}
+		return nil
+	}
+	x, y := arg(bo.X), arg(bo.Y)
+	if x == nil || y == nil {
+		return path.Cond{}, false
+	}
+	switch bo.Op {
+	case token.LSS, token.GTR, token.LEQ, token.GEQ, token.EQL, token.NEQ:
+		return path.Cond{If: iff, Op: bo.Op, X: x, Y: y, Neg: neg}, true
+	}
+	return path.Cond{}, false
 }
